@@ -3,7 +3,7 @@
 # every record that the specification does not explain.
 
 
-def trace_stage(ctx, fs_prop="C01", h_prop="C02", closed_prop="C17"):
+def trace_stage(ctx, fs_prop="C01", h_prop="C02", closed_prop="C17", sub_prop="C07"):
     work = tempfile.mkdtemp(prefix="trace-", dir=ctx.scratch)
     data = os.path.join(work, "TraceData.tla")
     reps = 1 if ctx.tier == "quick" else 3
@@ -38,15 +38,21 @@ def trace_stage(ctx, fs_prop="C01", h_prop="C02", closed_prop="C17"):
     ctx.cov["checker_cmd"].append(" ".join(cmd) + " ; tlc -config FSTrace.cfg FSTrace.tla")
     ctx.cov["stages"].append({"stage": "trace-fstest", "file_systems_traced": int(m.group(1)), "records_checked_by_tlc": int(m.group(2)),
                               "dropped_because_calls_overlapped": int(m.group(3)), "rejected_records": len(rejects), "spec_branches_taken": nb,
-                              "bases": ["mem", "kvplain", "os (reference)"], "suite_failures_seen": suite_failed})
+                              "bases": ["mem", "kvplain", "os (reference)", "Sub view of mem", "Sub of Sub of os.FS"], "suite_failures_seen": suite_failed})
     if len(ctx.cov["samples"]) < 4 and len(recs) > 12:
         ctx.cov["samples"].append({"trace": recs[0][:200], "records": [x[:160] for x in recs[1:6]], "verdict": "every record explained by FSCore!Eval / Handles!Eval"})
     ctx.cov["exhaustive"] = False
+    # what the plain file systems themselves do differently from the specification is not the Sub view's doing
+    plain = set((op, b, exp, got) for tid, idx, kind, op, b, exp, got in rejects if not info.get(int(tid), ("?", "?"))[1].startswith("sub"))
     for tid, idx, kind, op, b, exp, got in rejects:
         name, base = info.get(int(tid), ("?", "?"))
+        if base.startswith("sub") and (op, b, exp, got) in plain:
+            continue
         prop = fs_prop if kind == "fs" else (closed_prop if "/closed" in b else h_prop)
         if base == "os":
             prop = "SPEC"
+        elif base.startswith("sub"):
+            prop = sub_prop   # the view of a directory behaves like a file system of its own
         rec = recs[int(idx) - 1] if int(idx) - 1 < len(recs) else ""
         # the history: the records of this file system up to the rejected one
         start = int(idx) - 1
